@@ -307,6 +307,38 @@ def c01(tier, replay=None):
             nbig += 1
     total += len(big); total_ok += nbig
     log("[C01 size classes] documents %d ok %d" % (len(big), nbig))
+    # spellings of codes and names: every printable ASCII character and some others at the first, a middle and the last
+    # position of a block code, a frame code and a data name (the generator's own documents use b, f and _n1.. only).  A
+    # code is any run of non-blank characters after data_ / save_, a name any such run after the underscore.
+    sp = []
+    chars = [chr(c) for c in range(33, 127)] + ["\u00e9", "\u03c3", "\u20ac", "\U0001d11e", "\u00a0", "\ufffd"]
+    for ch in chars:
+        for pos, body in (("first", ch + "ab"), ("mid", "a" + ch + "b"), ("last", "ab" + ch)):
+            for dialect, magic in ((2, "#\\#CIF_2.0\n"), (1, "#\\#CIF_1.1\n")):
+                if dialect == 1 and ord(ch) > 126:
+                    continue
+                doc = magic + "data_" + body + "\n_x 1\nsave_" + body + "\n_y 2\nsave_\n_" + body + " 3\n_z 4\n"
+                one = lambda t: {"k": "char", "t": t, "q": 0}
+                exp = {body: {"items": {"_x": one("1"), "_" + body: one("3"), "_z": one("4")}, "loops": [], "frames": {body: {"items": {"_y": one("2")}, "loops": [], "frames": {}}}}}
+                sp.append(("spelling U+%04X %s, CIF %d" % (ord(ch), pos, dialect), doc, exp))
+    nsp = 0
+    for key, po, pr, leak in parse_docs(binary, [(doc, i) for i, (label, doc, exp) in enumerate(sp)], chunk=100):
+        label, doc, exp = sp[key]
+        problems = []
+        if po is None:
+            problems.append("cif_parse did not return: " + sanitizer_signature(leak or ""))
+        else:
+            if po.get("rc") != 0 or [e for e in po.get("log", []) if e.get("cb") == "error"]:
+                problems.append("rc %s, errors %s" % (po.get("rc"), [e.get("code") for e in po.get("log", []) if e.get("cb") == "error"][:3]))
+            got = observed_content(pr["state"]) if pr and "state" in pr else None
+            if got != exp:
+                problems.append("content %s, denoted %s" % (json.dumps(got, ensure_ascii=True)[:240], json.dumps(exp, ensure_ascii=True)[:240]))
+        if problems:
+            rep.violation("%s: %s" % (re.sub(r"U\+[0-9A-F]+", "U+X", label), re.sub(r"[0-9]+", "N", problems[0])[:50]), "%s: %s" % (label, "; ".join(problems)), {"label": label, "document": doc})
+        else:
+            nsp += 1
+    total += len(sp); total_ok += nsp
+    log("[C01 spellings] documents %d ok %d" % (len(sp), nsp))
     return rep.finish({"states": max(tstates, 1), "transitions": max(ttrans, 1), "traces_validated_against_impl": total_ok,
                        "documents": total, "configs": covs, "palette_values": len(PALETTE), "size_class_documents": len(big), "exhaustive": tier != "quick",
                        "explanation": "every value of the palette x every admissible presentation x every separator x every context (single slots), and every ordered pair of adjacent value tokens in the pair configurations"},
